@@ -170,6 +170,7 @@ func (m c16) Case(c *Ctx, r *RNG) {
 	}
 	used := map[string]bool{}
 	nrel := r.Range(0, 6)
+	unmirrored := r.Chance(1, 3)
 	for i := 0; i < nrel; i++ {
 		a := r.Intn(nt)
 		b := r.Intn(nt)
@@ -188,8 +189,17 @@ func (m c16) Case(c *Ctx, r *RNG) {
 		}
 		used[names[a]+"\x00"+n1], used[names[b]+"\x00"+n2] = true, true
 		o1, o2 := r.Bool(), r.Bool()
-		s.Types[a].Rels = append(s.Types[a].Rels, RelSpec{Name: n1, ToOne: o1, ToType: names[b], ToName: n2, FromOne: o2})
-		s.Types[b].Rels = append(s.Types[b].Rels, RelSpec{Name: n2, ToOne: o2, ToType: names[a], ToName: n1, FromOne: o1})
+		f1, f2 := o2, o1
+		if unmirrored {
+			// what struct tags give: FromOne is never filled in, so the two sides do not mirror each other's
+			// cardinalities. Check does not look at cardinalities: the schema is coherent all the same.
+			f1, f2 = r.Chance(1, 4), r.Chance(1, 4)
+		}
+		s.Types[a].Rels = append(s.Types[a].Rels, RelSpec{Name: n1, ToOne: o1, ToType: names[b], ToName: n2, FromOne: f1})
+		s.Types[b].Rels = append(s.Types[b].Rels, RelSpec{Name: n2, ToOne: o2, ToType: names[a], ToName: n1, FromOne: f2})
+	}
+	if unmirrored {
+		c.Count("schemas_with_unmirrored_cardinalities")
 	}
 	m.schemaCase(c, s, r)
 	c.Sample(map[string]any{"coherent_schema": s})
@@ -286,6 +296,21 @@ func (m c16) schemaCase(c *Ctx, s *SchemaSpec, r *RNG) {
 		}
 		return sc
 	}
+	// when the two sides of some pair do not mirror each other's cardinalities, which side's copy represents the
+	// pair is not determined by the statement: then the listing is compared by names only
+	mirrored := true
+	for _, t := range s.Types {
+		for _, rel := range t.Rels {
+			if rel.ToName == "" {
+				continue
+			}
+			if p := s.Type(rel.ToType); p != nil {
+				if q := p.Rel(rel.ToName); q != nil && (q.ToOne != rel.FromOne || q.FromOne != rel.ToOne) {
+					mirrored = false
+				}
+			}
+		}
+	}
 	orders := c.Pick(4, 8)
 	var first []string
 	for o := 0; o < orders; o++ {
@@ -318,7 +343,15 @@ func (m c16) schemaCase(c *Ctx, s *SchemaSpec, r *RNG) {
 			seq := []string{}
 			seen := map[entry]int{}
 			for _, rel := range rels {
-				seq = append(seq, relStr(rel))
+				if mirrored {
+					seq = append(seq, relStr(rel))
+				} else {
+					x, y := fmt.Sprintf("%q.%q", rel.FromType, rel.FromName), fmt.Sprintf("%q.%q", rel.ToType, rel.ToName)
+					if rel.ToName != "" && y < x {
+						x, y = y, x
+					}
+					seq = append(seq, x+"<->"+y)
+				}
 				var e entry
 				if rel.ToName == "" {
 					e = entry{a: relKey{rel.FromType, rel.FromName}}
